@@ -399,3 +399,33 @@ def load_program(root: str | None = None) -> Program:
     if root not in _PROGRAM_CACHE:
         _PROGRAM_CACHE[root] = Program(root)
     return _PROGRAM_CACHE[root]
+
+
+def function_tokens(node):
+    """Position-free token sequence of a function's syntax tree (node kinds, identifiers, attribute names, constants): the measure of how far a
+    function has moved from the version the rules were validated on."""
+    out = []
+    for n in ast.walk(node):
+        out.append(type(n).__name__)
+        if isinstance(n, ast.Name):
+            out.append(n.id)
+        elif isinstance(n, ast.Attribute):
+            out.append(n.attr)
+        elif isinstance(n, ast.Constant):
+            out.append(repr(n.value)[:40])
+        elif isinstance(n, ast.arg):
+            out.append(n.arg)
+    return out
+
+
+def similarity_to_baseline(P, qualname, baseline_tokens):
+    """difflib ratio between the current token sequence of ``qualname`` and the recorded one; None when either side is missing."""
+    import difflib
+    f = P.functions.get(qualname)
+    base = baseline_tokens.get(qualname)
+    if f is None or base is None:
+        return None
+    cur = function_tokens(f.node)
+    if cur == base:
+        return 1.0
+    return difflib.SequenceMatcher(None, base, cur, autojunk=False).ratio()
